@@ -52,8 +52,8 @@ func generateC04(c *core.Ctx, maxDist, emitDist int) (*c04Gen, error) {
 	cfg := "CONSTANTS\n" + c04Consts() + fmt.Sprintf(" MCFlavours = {\"core\", \"gnosis\", \"service\"}\n MCTypes = {\"shares\", \"keys\"}\n MaxDist = %d\n EmitDist = %d\n Emit = TRUE\n", maxDist, emitDist) +
 		"SPECIFICATION Spec\nINVARIANT EmitInv\nINVARIANT Design\nCHECK_DEADLOCK FALSE\n"
 	workers := c.Workers
-	if workers > 8 {
-		workers = 8
+	if workers > 6 {
+		workers = 6
 	}
 	res, err := tlc.Run(tlc.Opts{Module: mod, CfgText: cfg, Workers: workers, Timeout: 25 * time.Minute, HeapGB: 8,
 		Files: map[string][]byte{mod + ".tla": []byte("---- MODULE " + mod + " ----\nEXTENDS GossipValidateMC\n====\n")},
@@ -554,7 +554,7 @@ func CheckC04(c *core.Ctx) int {
 		}
 	}
 	c.Logf("replayed %d cases on the real combined validator + Handle (%.1fs): %d accepted, %d with outgoing messages", len(lines), replayS, accepted, handledOut)
-	vo, err := validateLines(lines, datas, validateC04, func(a, b int) []byte { return encodeLines(lines[a:b]) }, 8)
+	vo, err := validateLines(lines, datas, validateC04, func(a, b int) []byte { return encodeLines(lines[a:b]) }, 6)
 	if err != nil {
 		fmt.Println("INCONCLUSIVE:", err)
 		return core.ExitInconclusive
